@@ -75,18 +75,22 @@ def judge(fam, ops):
     return None
 
 
-def shrink(fam, ops, kind, budget=150):
-    """greedy delta debugging on op lines, keeping the same kind of failure"""
+def shrink(fam, ops, kind, budget=150, wall_s=60.0):
+    """greedy delta debugging on op lines, keeping the same kind of failure.
+    Bounded in tries AND wall-clock time (a mutant that makes every run hang until the watchdog must not
+    turn the check into hours of shrinking)."""
+    import time
+    t_end = time.time() + wall_s
     keep = getattr(fam, "keep_prefix", 0)
     head, cur = list(ops[:keep]), list(ops[keep:])
     def jd(f, c):      # always re-attach the fixed prefix
         return judge(f, head + c)
     tries = 0
     chunk = max(1, len(cur) // 2)
-    while chunk >= 1 and tries < budget:
+    while chunk >= 1 and tries < budget and time.time() < t_end:
         i = 0
         progressed = False
-        while i < len(cur) and tries < budget:
+        while i < len(cur) and tries < budget and time.time() < t_end:
             cand = cur[:i] + cur[i + chunk:]
             if not cand:
                 i += chunk
@@ -151,8 +155,10 @@ def campaign(chk, fam, cases, proof_ok, proof_detail, signature_of=None, label="
             chk.cov["traces_validated_against_impl"] += 1
             continue
         if r["kind"] in ("spec", "crash"):
-            small = shrink(fam, ops[: r["at"] + 1] if r["at"] < len(ops) else ops, r["kind"])
-            r2 = judge(fam, small) or r
+            hung = "rc=-999" in r["detail"] or "TIMEOUT" in r["detail"]
+            small = (ops[: r["at"] + 1] if r["at"] < len(ops) else ops) if hung else \
+                shrink(fam, ops[: r["at"] + 1] if r["at"] < len(ops) else ops, r["kind"])
+            r2 = r if hung else (judge(fam, small) or r)
             sig = signature_of(small, r2) if signature_of else None
             if chk.violation("\n".join(small) + "\n", "%s %s: %s" % (label or fam.name, r2["kind"], r2["detail"]), signature=sig):
                 found_concrete = True
